@@ -9,13 +9,23 @@ DRIVER = "drv_cancel"
 HARNESS_BIN = "cancel"
 HARNESS_FEATURES = ""
 PARTIAL = [
-    "no_stall_partial: proved (every configuration, every reachable state) = a task waiting for a computing / backward-projection entry "
-    "can be woken, or the entry has a live owner that holds its guard — whatever was cancelled or panicked before (waiter_has_live_owner, "
-    "bp_waiter_has_live_owner, from entry_has_live_owner); every task that holds a guard and is not waiting has an enabled step "
-    "(running_task_can_step); cancel is enabled at every await (cancel_always_enabled); a task in `caught` can always unwind "
-    "(caught_can_resume); the wake-up is part of the drop glue: right after `cancel t` outside a guarded block (cancel_wakes_waiters) and "
-    "right after the unwinding passes the owning frame (unwind_wakes_waiters) every other task parked on an entry of t can be woken. Missing for the full `no_stall` (def C05_full_statement): acyclicity of the waits-for relation between live "
-    "tasks (the static-rank argument, C02's deadlock-freedom) and a variant function that bounds every run",
+    "no_stall is proved under the static-rank assumption (ReachableR: every `call` goes to a smaller key — acyclic programs; without "
+    "it the model has cyclic waits, theorem cyclic_calls_can_deadlock; in the engine that is `exit_scc`/CyclicError, C06): "
+    "deadlock_free (a state with a task left has an enabled completing event, whatever was cancelled or panicked), "
+    "completing_decreases (the explicit variant `variant n s` strictly decreases on EVERY completing event: hit, wake, gEnter, batchNew, "
+    "submit, finish, resume, bpUp, sAcquire, sBump, sCommit, sFinish), completing_run_bounded, maximal_completing_run_quiescent (every "
+    "maximal run of completing events ends with no task left), all_complete / no_stall (such a run exists from every reachable state and "
+    "ends in Q). What is NOT claimed: finiteness of runs that keep starting new work — the LTS has no program, `call` / `lock` / `write` / "
+    "`spawn` / `sStart` / `sWrite` are enabled again and again, so 'every maximal run is finite' is false for it; the statement is about "
+    "the runs in which started work is carried to its end. The trace driver rejects a `reg` whose callee is not below its caller, so the "
+    "validated traces are runs of ReachableR",
+    "cancel_then_sound is proved on the model side (erase_faults, cancel_then_sound): every run of the repaired configuration from init "
+    "with any cancels / panics that ends without a task has the same publication log (completed node publications, epoch bumps, input "
+    "writes, in order), the same store (version, epoch) and the same (empty) tables as a run WITHOUT cancel / panic that consists of "
+    "complete sequential requests — one single-frame query per completed publication, one session per bump; only submit / sBump / sWrite "
+    "change the store (step_store). Composition with C01's core_history_sound is by the publication log; not covered: the model has no "
+    "values and no dependency relation, so that the log read as a C01 history asks for every node after its callees is argued (a frame's "
+    "guarded block runs after the frames above it were popped) but not a theorem",
     "cancel_restores / session_excludes_queries are theorems of the repaired configuration (f11 f12 f40 = 111), which is the code "
     "now that F11, F12, F40 are fixed in /repo (the plugin derives the bits from known_findings.json and the traces of the real code are "
     "validated against that configuration); for the original orders the model keeps cancel_restores_asis_partial (Q without its batch "
